@@ -20,11 +20,15 @@ func init() {
 			"retry and SyncStateReprocessAll to a reload (SYNCSTATE); controller.SetBalancer does nothing before pools are known, maps a failed " +
 			"UpdateStatus to SyncStateError and does not touch the allocator on that path (HANDLER-ERR); in convergeBalancer every path to allocateIPs " +
 			"passed clearServiceState, an empty recorded status always clears, and clearServiceState releases the service's own allocation and resets status " +
-			"and annotation (CLEAR-BEFORE-ALLOC) - so an address chosen but not persisted is dropped before a new one is chosen.",
+			"and annotation (CLEAR-BEFORE-ALLOC) - so an address chosen but not persisted is dropped before a new one is chosen; the k8s client's UpdateStatus " +
+			"answers nil only when the API accepted the write, and the full pass lists the Services in one call without list options (WRITE-ERR).",
 		NotDecided: "End-to-end restart behaviour over all crash points and delivery orders (needs histories); that the API server's list is complete; " +
 			"controller-runtime's retry/backoff semantics.",
 		Run: runC06,
 		Mutants: []Mutant{
+			{Name: "sharing-key-dropped-with-its-allocation", File: "internal/allocator/allocator.go",
+				Old: "\t\tif len(a.portsInUse[ip.String()]) == 0 {\n\t\t\tdelete(a.portsInUse, ip.String())\n\t\t\tdelete(a.sharingKeyForIP, ip.String())\n\t\t}\n",
+				New: "\t\tif len(a.portsInUse[ip.String()]) == 0 {\n\t\t\tdelete(a.portsInUse, ip.String())\n\t\t}\n\t\tif a.sharingKeyForIP[ip.String()] == &al.key {\n\t\t\tdelete(a.sharingKeyForIP, ip.String())\n\t\t}\n", Expect: "KEY-LIFETIME"},
 			{Name: "status-write-failure-swallowed", File: "internal/k8s/k8s.go",
 				Old: "\t_, err := c.client.CoreV1().Services(svc.Namespace).UpdateStatus(context.TODO(), svc, metav1.UpdateOptions{})\n\treturn err",
 				New: "\t_, err := c.client.CoreV1().Services(svc.Namespace).UpdateStatus(context.TODO(), svc, metav1.UpdateOptions{})\n\tif err != nil && len(svc.Status.LoadBalancer.Ingress) == 0 {\n\t\treturn nil\n\t}\n\treturn err", Expect: "WRITE-ERR"},
@@ -75,6 +79,9 @@ func runC06(p *chk.Prog, r *chk.Report) {
 	readoptBeforeExitRule(p, r)
 	c06EveryEvent(p, r)
 	c06WriteErr(p, r)
+	// releasing a Service whose status write failed leaves the sharing key of an address that others still hold
+	// (KEY-LIFETIME, shared with C01): otherwise the address looks free and is recorded for a second Service
+	c01KeyLifetime(p, r)
 }
 
 // c06WriteErr: the failed-write leg of the property rests on the failure being reported: the controller's UpdateStatus
